@@ -187,8 +187,8 @@ def emit_extra(h, rng, U, kind):
 
 EXTRAS = {
     "C01": {"get": 0.18, "getmut": 0.05, "clear": 0.004},
-    "C02": {"iter": 0.08, "slices": 0.05, "clear": 0.003},
-    "C03": {"range": 0.12, "irange": 0.05, "frompos": 0.05, "clear": 0.003},
+    "C02": {"iter": 0.08, "slices": 0.05, "clear": 0.003, "getmut": 0.04},
+    "C03": {"range": 0.12, "irange": 0.05, "frompos": 0.05, "clear": 0.003, "getmut": 0.03},
     "C04": {"validate": 0.04, "clear": 0.004},
     "C05": {"iter": 0.05, "slices": 0.03, "range": 0.04, "irange": 0.02, "frompos": 0.03,
             "validate": 0.03, "get": 0.03, "clear": 0.003},
